@@ -397,8 +397,22 @@ def run_edits(case):
             if kind in ("commit", "tag"):
                 f = rng.choice(list(fields))
                 v = fields[f]()
-                setattr(obj, f, v)
-                trace.append(f)
+                if f == "parents" and rng.random() < 0.5:
+                    # edit the list the getter hands out, then assign that same list object back (the setter must not conclude that
+                    # nothing changed from comparing the list with itself)
+                    _ = obj.id if rng.random() < 0.7 else None
+                    live = obj.parents
+                    if rng.random() < 0.5 or not live:
+                        live.append(rhex(rng))
+                    else:
+                        live.pop(rng.randrange(len(live)))
+                    v = live
+                    setattr(obj, f, v)
+                    v = list(v)
+                    trace.append("parents-inplace-then-reassign")
+                else:
+                    setattr(obj, f, v)
+                    trace.append(f)
                 if f == "object":
                     r["type"], r["object"] = v[0].type_name, v[1]
                 elif f in ("author_timezone", "commit_timezone", "tag_timezone"):
